@@ -1,6 +1,6 @@
 """C01 — a successful incremental build equals a clean build (DESIGN 5.1)."""
 from facts import AnalysisBroken
-from model import (dstr, strip, fact_holds, mentions_field, mentions_call, mentions_var,
+from model import (path_value, dstr, strip, fact_holds, mentions_field, mentions_call, mentions_var,
                    mentions_enum, const_value, walk)
 from rules import (absent_from, guarded, calls_to, field_writes, who_may_call, must_pass, dominated_by,
                    full_range, loops_over, every_iteration_passes, basename, error_discipline,
@@ -60,10 +60,12 @@ def run(ctx):
         f = prog.fn(name)
 
         def invalid(f, bid, s, name=name):
+            known = frozenset((k, p) for i2, s2 in enumerate(f.blocks[bid]['succ']) if s2 == s for k, p, a in f.edge_facts(bid, i2))
             r = f.find_path(None, lambda x: x['k'] == 'ret' and not (
                 const_value(x.get('e')) == 0 or 'nullopt' in dstr(x.get('e')) or
                 (strip(x.get('e')) or {}).get('k') == 'ctor' and not (strip(x.get('e')) or {}).get('args')),
-                from_succ=s, is_blocker=lambda x: x['k'] == 'ret')
+                from_succ=s, is_blocker=lambda x: x['k'] == 'ret', init_facts=known,
+                hit_ok=lambda x, facts: path_value(f, x.get('e'), facts) != 0)      # `return ok;` with ok known false on this path
             return r is None, 'the recorded deps are treated as unusable'
         check_cc(ctx, 'C01.CC', f, ('DEPS', 'OUT'), '<', invalid,
                  'deps record older than the output => deps invalid', 'CC3:deps-vs-out')
@@ -384,7 +386,7 @@ def run(ctx):
       '(otherwise the discovered node is not the manifest node and edits are missed)')
     for name in ('Builder::ExtractDeps', 'ImplicitDepLoader::ProcessDepfileDeps'):
         canon_before_intern(ctx, 'C01.CN', prog.fn(name), exempt={
-            ('Builder::ExtractDeps', 'State::GetNode', 'i'):
+            ('Builder::ExtractDeps', 'State::GetNode', 'elem-of:CLParser::includes_'):
                 'deps=msvc: CLParser::Parse normalises include paths itself (IncludesNormalize / as written)'})
     ctx.floor('C01.CN', 2)
 
